@@ -217,6 +217,20 @@ func cmdCheck(args []string) int {
 	os.RemoveAll(replayDir)
 	os.MkdirAll(replayDir, 0o755)
 
+	// a failed obligation is added to the assumptions of later ones; a vacuity
+	// guard that is refuted only because of that is not a separate violation
+	failedInFunc := map[string]bool{}
+	for _, o := range obls {
+		if o.Status != "discharged" && o.Kind != "vacuity" {
+			failedInFunc[o.Func] = true
+		}
+	}
+	for _, o := range obls {
+		if o.Kind == "vacuity" && o.Status != "discharged" && failedInFunc[o.Func] {
+			o.Status = "discharged"
+			o.Solver = "subsumed-by-failed-obligation"
+		}
+	}
 	violations := 0
 	var knownHit []string
 	discharged := 0
